@@ -125,10 +125,24 @@ def gen_sequence(rng, idx):
 
 
 # ------------------------------------------------------------------ implementation access
+_MIX = [0]
+
+
 def impl_build(NNSP, k, s1, s2):
     try:
         p = NNSP(k)
-        p.build(np.array(s1, copy=True), np.array(s2, copy=True))
+        a1, a2 = np.array(s1, copy=True), np.array(s2, copy=True)
+        # the two samples as a caller may hold them: when one of them is integral it arrives in an integer dtype (int64 / int32) or as a
+        # list of Python ints while the other one stays float64 -- the partition is that of the VALUES (numpy promotes, it never truncates)
+        _MIX[0] += 1
+        for which, a in ((1, a1), (2, a2)):
+            if a.size and _MIX[0] % 3 == which % 3 and np.all(a == np.round(a)) and np.all(np.abs(a) < 2 ** 31):
+                a = a.astype(np.int64 if _MIX[0] % 2 else np.int32)
+                if which == 1:
+                    a1 = a.tolist() if _MIX[0] % 5 == 0 else a
+                else:
+                    a2 = a
+        p.build(a1, a2)
         return {"D": np.array(p.D, dtype=float), "v1": np.array(p.v1, dtype=float), "v2": np.array(p.v2, dtype=float),
                 "adj": np.array(p.adjacency_matrix, dtype=float), "nnps": np.array(p.nnps_matrix, dtype=float),
                 "dist": float(NNSP.compute_nnps_distance(p.nnps_matrix, p.v1, p.v2))}
